@@ -93,7 +93,7 @@ def run_history(seed, variant, k):
     env = SimEnv(ch, addresses=addrs, max_virtual_time=600.0)
     w = env.world
     if flavour == 'trash':
-        env.conn_class.max_in_flight = 6
+        env.conn_class.max_in_flight = 8
         env.conn_class.orphaned_threshold = 3
     plan = {}                      # uid -> action
     hold_use = {}                  # address -> {'from_conn': id, 'delays': [(keyspace, delay)]}  answers to USE on new pool connections kept back
@@ -323,10 +323,11 @@ def run_history(seed, variant, k):
                 sleep(0.3)
             elif flavour == 'trash':
                 # three requests never answered time out on the client: orphan threshold reached, the next borrow replaces the connection
-                # while a fourth request is still in flight on the old one -> the old connection goes to the pool's trash
+                # while two more requests (one answered late, one never) are still in flight on the old one -> the old connection goes to the pool's trash
                 for i in range(3):
                     request(session, host=h2, act='silent', timeout=0.3)
                 request(session, host=h2, act=('hold', 3.0), timeout=6.0)
+                request(session, host=h2, act='silent', timeout=500.0)      # a live request the node never answers: nothing but shutdown will end it
                 sleep(0.5)
                 if S['stop']:
                     return
